@@ -18,6 +18,7 @@ import (
 	"os"
 	"strconv"
 	"strings"
+	"syscall"
 )
 
 func envInt(name string, def int64) int64 {
@@ -118,8 +119,16 @@ func executeScenario(sc *Scenario) *Outcome {
 }
 
 func workerMain() {
-	in := bufio.NewReaderSize(os.Stdin, 1<<20)
-	out := bufio.NewWriter(os.Stdout)
+	// the protocol gets private copies of stdin/stdout; anything klog or a library prints
+	// to the real stdout goes to stderr and cannot corrupt the protocol
+	pin, _ := syscall.Dup(0)
+	pout, _ := syscall.Dup(1)
+	protoIn := os.NewFile(uintptr(pin), "proto-in")
+	protoOut := os.NewFile(uintptr(pout), "proto-out")
+	_ = syscall.Dup2(2, 1)
+	os.Stdout = os.Stderr
+	in := bufio.NewReaderSize(protoIn, 1<<20)
+	out := bufio.NewWriter(protoOut)
 	dec := json.NewDecoder(in)
 	for {
 		var req request
